@@ -3,8 +3,9 @@ import common, vc_impl as I, marker_impl as MI, gen_constraints as GC
 
 TRUSTED = ["Coq 8.16.1 kernel", "extraction with ExtrOcamlBasic only; ocaml/driver.ml",
            "reference: packaging.requirements.Requirement / canonicalize_name from site-packages",
-           "the requirement grammar (lark), URL and VCS handling are not modelled; python harness: generators, oracles"]
-ASSUME = ["URL and VCS forms are judged on the implementation and the reference parser only (no theorem covers them)"]
+           "the registry fragment of the requirement grammar (NAME, extras, version specs) is modelled by hand (Model/Req.v) and compared with "
+           "Requirement(...) / base_pep_508_name on every run; markers inside requirements, URL and VCS handling are not modelled; python harness: generators, oracles"]
+ASSUME = ["URL and VCS forms and markers inside requirements are judged on the implementation and the reference parser only (no theorem covers them)"]
 RULE = ("dependencies with names/extras over the PEP 503/685 alphabet (case, runs of - _ .), conjunction constraints over all PEP 440 "
         "operators, markers from the C06 domain with extra clauses and python ranges, http(s) archive URLs, git URLs in https / ssh / "
         "file forms with and without user, port, revision and subdirectory; probes: critical versions and the environment grid; "
@@ -132,8 +133,10 @@ def run(tier):
     M, F = common.Model(), common.Ref(); rng = R.rng
     ienvs = [MI.impl_env(e) for e in MI.env_grid("quick", rng)]
     from poetry.core.packages.dependency import Dependency
+    reg_texts = []
     for _ in range(600 if tier == "quick" else 12000):
         s, feats = gen_dep(rng)
+        if not (feats & {"url", "git", "marker"}): reg_texts.append(s)
         R.case(dict(requirement=s), nontrivial=bool(feats)); [R.count("has_" + f) for f in feats]
         d, dep = judge(s, F, ienvs)
         if d: R.fail(dict(requirement=s), d, d40_matcher)
@@ -151,6 +154,39 @@ def run(tier):
                     continue
                 if describe(dep) != describe(d2) or str(dep.constraint) != str(d2.constraint) or any(dep.marker.validate(e) != d2.marker.validate(e) for e in ienvs):
                     R.fail(dict(requirement=s, variant=v), "a PEP 508-insignificant rewrite changed the dependency")
+    # the requirement parser and the printer of registry requirements, against their model (Model/Req.v): the same name, extras and
+    # constraint text for every generated registry requirement and for damaged variants of it; the text base_pep_508_name prints
+    from poetry.core.version.requirements import Requirement
+    variants_ = []
+    for s in reg_texts:
+        variants_.append(s)
+        for _ in range(2):
+            t = s; i = rng.randrange(len(t) + 1); k = rng.random()
+            t = t[:i] + rng.choice(["(", ")", ",", " ", "[", "]", ">=", "<", "=", "x", "1", ".*", "  ", "~="]) + t[i:] if k < 0.5 else (t[:i] + t[i + 1:] if k < 0.8 else t[:i])
+            variants_.append(t)
+    variants_ = [t for t in dict.fromkeys(variants_) if t and all(32 <= ord(c) < 127 for c in t)]
+    for t, m in zip(variants_, M.many([["reqparse", t] for t in variants_]) if variants_ else []):
+        R.count("requirement_parser_cases")
+        try:
+            r = Requirement(t); got = ["ok", r.name, ",".join(r.extras), str(r.constraint)]
+        except Exception as e:  # noqa
+            got = ["invalid"] if type(e).__name__ == "InvalidRequirementError" else ["err", type(e).__name__]
+        if m == ["outside"]: R.count("requirement_outside_model"); continue
+        R.count("requirement_" + got[0])
+        if m != got: R.disagree("requirement parser (name, extras, constraint text)", dict(requirement=t), m, got)
+    pr = []
+    for s in reg_texts:
+        try:
+            d = Dependency.create_from_pep_508(s)
+        except Exception:  # noqa
+            continue
+        from poetry.core.constraints.version import VersionUnion
+        if type(d).__name__ != "Dependency" or isinstance(d.constraint, VersionUnion) or d.constraint.is_empty(): continue
+        pr.append((d.pretty_name, ",".join(sorted(d.extras)), str(d.constraint), d.base_pep_508_name))
+    pr = [x for x in dict.fromkeys(pr) if all(32 <= ord(c) < 127 for c in "".join(x))]
+    for (n, ex, ct, want), m in zip(pr, M.many([["deptext", n, ex, ct] for n, ex, ct, _ in pr]) if pr else []):
+        R.count("requirement_printer_cases")
+        if m != ["ok", want]: R.disagree("base_pep_508_name of a registry dependency", dict(name=n, extras=ex, constraint=ct), m, ["ok", want])
     # name normalisation: model = packaging = what Dependency reports
     names = [rng.choice(NAMES + EXTRAS) for _ in range(50)] + ["".join(rng.choice("aB-_.z09") for _ in range(rng.randint(1, 12))) for _ in range(400)]
     names = [n for n in names if n[0].isalnum() and n[-1].isalnum()]
